@@ -33,6 +33,7 @@ type plScenario struct {
 	Stop        string // "graceful" | "graceful-concurrent" | "deadline" | "deadline-late-afterfunc"
 	Unbuffered  float64
 	Abandoned   bool // with deadline stops: some unbuffered channels nobody reads
+	LazyRecv    bool // some unbuffered channels get their receiver only after a delay (graceful stops only)
 	Flushers    int
 }
 
@@ -125,6 +126,8 @@ func runPlScenario(r Rng, sc plScenario) *plRun {
 			b.chanCap = 0
 			if sc.Abandoned && r.Chance(0.5) {
 				b.abandon = true
+			} else if sc.LazyRecv && r.Chance(0.6) {
+				b.lazy = time.Duration(5+r.IntN(35)) * time.Millisecond
 			}
 		}
 		b.ch = make(chan error, b.chanCap)
@@ -265,6 +268,10 @@ func genPlScenario(r Rng, which string) plScenario {
 		if sc.Abandoned {
 			sc.Unbuffered = 0.4
 		}
+	}
+	if which == "C07" && sc.Stop != "deadline" && r.Chance(0.5) {
+		sc.LazyRecv = true
+		sc.Unbuffered = 0.4
 	}
 	sc.Name = fmt.Sprintf("%s/%s/cap%d/rows%d/p%dx%d/f%d/pre%d", sc.Stop, sc.Store, sc.IngestCap, sc.MaxRows, sc.Producers, sc.PerProducer, sc.Flushers, sc.BeforeStart)
 	return sc
@@ -488,6 +495,19 @@ func (o *ackObserver) register(b *batch) {
 		o.wg.Add(1)
 		go func() {
 			defer o.wg.Done()
+			if b.lazy > 0 {
+				// until this receiver starts, the unbuffered channel provably has not been answered
+				select {
+				case <-time.After(b.lazy):
+				case <-o.quit:
+					return
+				}
+			}
+			o.mu.Lock()
+			b.mu.Lock()
+			b.recvStarted = true
+			b.mu.Unlock()
+			o.mu.Unlock()
 			for {
 				select {
 				case v := <-b.ch:
@@ -525,7 +545,10 @@ func (o *ackObserver) checkBefore(t time.Time, except *batch, check, what string
 		if !before || answered(a) {
 			continue
 		}
-		if a.chanCap == 0 {
+		a.mu.Lock()
+		started := a.recvStarted
+		a.mu.Unlock()
+		if a.chanCap == 0 && started {
 			o.pending = append(o.pending, ackPending{check, what, a, time.Now()})
 		} else {
 			un = append(un, a.id)
